@@ -246,6 +246,7 @@ func (c *Conn) Write(b []byte) (int, error) {
 			n = len(b)
 		}
 		err, errs = ErrHard, "hard"
+		c.dead = true // a reset connection stays broken
 	default:
 		// the stimulus names an outcome that does not apply here (model and code disagree about the
 		// connection): a plain network error is always a possible environment behaviour
@@ -298,6 +299,7 @@ func (c *Conn) Read(b []byte) (int, error) {
 		}
 	case o.Kind == "err":
 		err, errs = ErrHard, "hard"
+		c.dead = true // a reset connection stays broken
 	case o.Kind == "eof":
 		err, errs = errEOF, "eof"
 	default: // free, ok, n
